@@ -1156,6 +1156,10 @@ func (f *framer) parseResultRows() frame {
 	if result.numRows < 0 {
 		panic(fmt.Errorf("invalid row_count in result frame: %d", result.numRows))
 	}
+	// every cell carries a 4 byte length, so the rows must fit in what is left of the body
+	if minRow := 4 * result.meta.colCount; minRow > 0 && result.numRows > len(f.buf)/minRow {
+		panic(fmt.Errorf("invalid row_count in result frame: %d rows of %d columns in %d bytes", result.numRows, result.meta.colCount, len(f.buf)))
+	}
 
 	return result
 }
